@@ -39,6 +39,10 @@ def tr (c s : Rat) (t p : Pt) : Pt :=
 /-- The rotation alone (used for the velocity vector of a point-mass state). -/
 def rot (c s : Rat) (v : Pt) : Pt := ⟨c * v.x - s * v.y, s * v.x + c * v.y⟩
 
+/-- `transform.rotate_translate` on one vertex (transform.py:25-60): first rotate about the origin, then translate by `t`
+    (used by `Shape.rotate_translate_local`, not by any `translate_rotate`). -/
+def rt (c s : Rat) (t p : Pt) : Pt := ⟨c * p.x - s * p.y + t.x, s * p.x + c * p.y + t.y⟩
+
 /-- The parameters of one `translate_rotate(t, a)` call: `c = math.cos(a)`, `s = math.sin(a)`, `τ = TWO_PI`. -/
 structure Mo where
   c : Rat
